@@ -105,7 +105,7 @@ SameTable(S) == { R \in UNION { UNION { Second(M, t) \ {S} : M \in { X \in AddCo
 \* changes that cannot be carried out on a populated table - a rebuild of t together with a new NOT NULL column without default: no value
 \* exists for the rows that are there. Atlas must refuse them (its copy statement fails) and leave schema and rows as they were.
 Inadmissible(S) == UNION { UNION { { With(M, t, [M[t] EXCEPT !.cols[c] = [type |-> "INT", null |-> FALSE, dflt |-> "none", gen |-> ""]]) : c \in Cn \ (Cols(M[t]) \cup Cols(S[t])) }       \* a column the table never had
-                                   : M \in Rebuilds(S, t) } : t \in Present(S) }
+                                   : M \in { X \in Rebuilds(S, t) : Stored(X[t]) \cap Stored(S[t]) # {} } } : t \in Present(S) }   \* some column survives: rows are copied
 
 \* ---- row semantics of an edit (C05): which column values must survive ----------------------------------
 \* a column survives in table t iff it is present before (stored or generated: the values it showed), stored after, and has the same type
@@ -124,7 +124,9 @@ Seed2 == [Seed1 EXCEPT !["t2"] = [Absent EXCEPT !.cols = [c \in Cn |-> IF c = "c
 \* Seed2 with a cascading child: a parent rebuilt with foreign keys enforced would silently delete the child's rows
 \* ... and a VIRTUAL generated column (its values are computed on read; when it becomes a regular column they must be materialised)
 Seed5 == [Seed2 EXCEPT !["t2"].fks = {[name |-> "f1", col |-> "b", ref |-> "t1", refcol |-> "a", onupd |-> "NO ACTION", ondel |-> "CASCADE"]},
-                       !["t2"].cols["c"] = [type |-> "INT", null |-> TRUE, dflt |-> "none", gen |-> "virtual"]]
+                       !["t2"].cols["c"] = [type |-> "INT", null |-> FALSE, dflt |-> "none", gen |-> "virtual"]]
+\* Seed1 next to a table with a single column: whatever is modified there, no column of the table is left unchanged
+Seed6 == [Seed1 EXCEPT !["t2"] = [Absent EXCEPT !.cols = [c \in Cn |-> IF c = "a" THEN [type |-> "INT", null |-> TRUE, dflt |-> "none", gen |-> ""] ELSE NoCol]]]
 Seed3 == [Empty EXCEPT !["t1"] = [Absent EXCEPT !.cols = [c \in Cn |-> IntCol], !.pk = <<"b", "a">>, !.worowid = TRUE,
                                     !.idx = {[name |-> "i1", parts |-> <<Part("a", FALSE), Part("c", TRUE)>>, unique |-> FALSE, where |-> "w1"]},
                                     !.chk = {[name |-> "", expr |-> "e1"], [name |-> "k2", expr |-> "e2"]}]]
